@@ -252,7 +252,7 @@ example usage...
         else:
             raise TypeError("'%s' is not a monitor instance" % monitor)
         self._x.extend(monitor._x)
-        self._y.extend(self._get_y(monitor))      # scalar, up to 2x faster
+        self._y.extend(list(self._get_y(monitor)))# scalar, up to 2x faster
        #self._y.extend(self._k(monitor.iy, iter)) # vector, results like numpy
         self._id.extend(monitor._id)
         self._info.extend(monitor._info)
@@ -268,11 +268,12 @@ example usage...
                 pass #XXX: CustomMonitor may fail...
         else:
             raise TypeError("'%s' is not a monitor instance" % monitor)
-        [self._x.insert(*i) for i in enumerate(monitor._x)]
-        [self._y.insert(*i) for i in enumerate(self._get_y(monitor))]
+        #NOTE: use copies, as monitor can be self
+        [self._x.insert(*i) for i in enumerate(monitor._x[:])]
+        [self._y.insert(*i) for i in enumerate(list(self._get_y(monitor)))]
        #[self._y.insert(*i) for i in enumerate(self._k(monitor.iy, iter))]
-        [self._id.insert(*i) for i in enumerate(monitor._id)]
-        [self._info.insert(*i) for i in enumerate(monitor._info)]
+        [self._id.insert(*i) for i in enumerate(monitor._id[:])]
+        [self._info.insert(*i) for i in enumerate(monitor._info[:])]
         #XXX: may be faster ways of doing the above...
         #     (e.g. deepcopy(monitor) allows enumerate w/o list())
 
